@@ -175,3 +175,48 @@ Proof.
     pose proof HI' as (Hs' & _ & Hh' & _ & _ & (fa' & Hfa' & _) & _).
     apply recovers_log; [exact Hs'| |exact Hh']. intros E. rewrite E in Hfa'. discriminate.
 Qed.
+
+(* ... the same when the first operation after the failure is a delete *)
+Theorem fault_continue_restart_del c s clk k0 ops fc fj p :
+  Inv s -> rep fc (s_dir s) -> junked (s_active s) p fj fc -> torn_entry p ->
+  let x := after_failed_append s clk in
+  run_ready c (fst (fst (step c x (ODel k0)))) ops ->
+  trace_wf (snd (run c x (ODel k0 :: ops))) ->
+  let '(x', rs, t) := run c x (ODel k0 :: ops) in
+  Inv x' /\ rs = spec_run (abs s) (ODel k0 :: ops) /\
+  exists fj', fs_run fj t = Some fj' /\ img_ok fj' (abs x').
+Proof.
+  intros HI Hrep HJ Ht x Hready Hwf.
+  pose proof (failed_append_faulted s clk HI) as HF. fold x in HF.
+  destruct (step_del_faulted c x k0 HF) as (h & t1 & Hn & HIh & Habh & Hstep).
+  (* the repair: one create *)
+  pose proof HI as (Hs & Hids & _ & _ & Hal & _).
+  assert (Hnone : dir_get (s_dir s) (s_last s + 1) = None) by (apply (ids_le_get_none _ (s_last s)); [exact Hids|lia]).
+  assert (Hh : h = mkSt (dir_set (s_dir s) (s_last s + 1) empty_file) (s_idx s) (s_stats s) (s_last s + 1) 0 (s_last s + 1) false clk /\ t1 = [SCreate (FData (s_last s + 1))]).
+  { unfold new_active in Hn. cbn [x after_failed_append s_last s_dir s_idx s_stats s_clock] in Hn. rewrite Hnone in Hn. inversion Hn. auto. }
+  destruct Hh as [Hh ->].
+  destruct (rep_after_create fc (s_dir s) (s_last s + 1) Hrep Hnone) as [Hcr Hrep1].
+  destruct (junked_step (s_active s) p fj fc (SCreate (FData (s_last s + 1))) _ HJ ltac:(cbn; lia) Hcr) as (fj1 & Hcr' & HJ1).
+  assert (Hdirh : s_dir h = s_dir s ++ [(s_last s + 1, empty_file)]) by (rewrite Hh; cbn [s_dir]; apply dir_set_new; exact Hnone).
+  rewrite <- Hdirh in Hrep1.
+  (* the rest of the run, from the repaired state *)
+  assert (Hready' : run_ready c h (ODel k0 :: ops)).
+  { cbn [run_ready op_ready]. split; [exact I|]. rewrite Hstep in Hready. destruct (step c h (ODel k0)) as [[s2 r2] t2]. exact Hready. }
+  assert (Hrun : run c x (ODel k0 :: ops) = let '(x', rs, t) := run c h (ODel k0 :: ops) in (x', rs, [SCreate (FData (s_last s + 1))] ++ t)).
+  { cbn [run]. rewrite Hstep. destruct (step c h (ODel k0)) as [[s2 r2] t2]. destruct (run c s2 ops) as [[s3 rs3] t3]. now rewrite <- app_assoc. }
+  rewrite Hrun in Hwf |- *.
+  pose proof (run_refines c (ODel k0 :: ops) h HIh Hready') as Href.
+  assert (Hact : s_active s < s_active h) by (rewrite Hh; cbn [s_active]; lia).
+  assert (Hfa : exists fa, dir_get (s_dir h) (s_active h) = Some fa /\ data_size (d_data fa) = s_written h /\ s_written h <= c_max c).
+  { exists empty_file. rewrite Hh. cbn [s_dir s_active s_written]. rewrite dir_get_set, N.eqb_refl. cbn. repeat split; lia. }
+  destruct (run c h (ODel k0 :: ops)) as [[x' rs] t] eqn:Er. cbn [snd] in Hwf.
+  assert (Hwf' : trace_wf t) by (unfold trace_wf in *; inversion Hwf; assumption).
+  pose proof (run_beside_junk c (ODel k0 :: ops) h _ fj1 (s_active s) p HIh Hact Hready' Hrep1) as Hb. rewrite Er in Hb. cbn [fst snd] in Hb.
+  destruct (Hb Hwf' Hfa HJ1) as (fj' & fc' & Hrj & Hrc & Hrep' & HJ').
+  destruct Href as (HI' & Hrs & Hfin). split; [exact HI'|]. split.
+  - rewrite Hrs. destruct (spec_run_ext (ODel k0 :: ops) _ _ Habh) as [E1 _]. exact E1.
+  - exists fj'. split; [cbn [app fs_run]; rewrite Hcr'; exact Hrj|].
+    exists (s_dir x'). split; [eapply junked_reads; eassumption|].
+    pose proof HI' as (Hs' & _ & Hh' & _ & _ & (fa' & Hfa' & _) & _).
+    apply recovers_log; [exact Hs'| |exact Hh']. intros E. rewrite E in Hfa'. discriminate.
+Qed.
